@@ -271,7 +271,8 @@ def irrigation_context(chk, prog):
     for n in walk_no_nested(fi.node):
         if isinstance(n, ast.If) and not n.orelse and len(n.body) == 1 and isinstance(n.body[0], ast.Assign) \
                 and len(n.body[0].targets) == 1 and isinstance(n.body[0].targets[0], ast.Name) \
-                and n.body[0].targets[0].id == irr and any(isinstance(x, ast.Name) and x.id == f_season for x in ast.walk(n.test)):
+                and n.body[0].targets[0].id == irr and _max0_arg(n.body[0].value) is not None \
+                and not _is_max0_of(n.body[0].value, irr):
             caps.append(n)
     return dict(fi=fi, where=where, flow=flow, cfg=cfg, params=params, step=step, call=call, formal_of=formal_of,
                 ret=ret[0], ret_node=flow.stmt_node[id(ret[0])], irr=irr, cum=cum, subst=subst, caps=caps, nf=NF(subst=subst))
